@@ -8,7 +8,13 @@
 //!   macro    `counter!(name, labels)` / `describe_counter!(..)` under `with_local_recorder`,
 //!   handle   an update through a handle obtained by an earlier registration, issued on a thread that has
 //!            a *different* recorder (or none) installed locally.
-//! During the whole case a decoy recorder is installed locally on the harness thread; it must stay empty.
+//!   tree     a tree of nested local-recorder scopes executed on one thread (`with_local_recorder` closures
+//!            and `set_default_local_recorder` guards, left by return or by a panic that unwinds through them
+//!            and is caught further up on the same thread), with calls through the macros / `with_recorder`
+//!            between them: each call must reach the recorder of the innermost open scope — the global
+//!            recorder (a `DebuggingRecorder` installed with `install()` by the first case) outside any scope.
+//! During the whole case a decoy recorder is installed locally on the harness thread; it shows only what was
+//! called on the harness thread outside any other scope.
 //!
 //! The same ops go to the Lean model (`debug …`); every snapshot is compared entry by entry, in order
 //! (`into_vec`) or sorted (`into_hashmap`), histogram value lists sorted.  Independent of the model, a tally
@@ -26,6 +32,19 @@ use std::sync::mpsc::{channel, Sender};
 use std::sync::Arc;
 
 static META: metrics::Metadata<'static> = metrics::Metadata::new("mv", metrics::Level::INFO, None);
+/// every level, several targets / module paths: `register_*` must track the metric whatever the metadata says
+static METAS: [metrics::Metadata<'static>; 7] = [
+    metrics::Metadata::new("mv", metrics::Level::INFO, None),
+    metrics::Metadata::new("mv", metrics::Level::TRACE, None),
+    metrics::Metadata::new("", metrics::Level::DEBUG, Some("")),
+    metrics::Metadata::new("other::target", metrics::Level::WARN, Some("mv_harness::c19")),
+    metrics::Metadata::new("mv", metrics::Level::ERROR, Some("x")),
+    metrics::Metadata::new("metrics_util::debugging", metrics::Level::TRACE, Some("metrics_util::debugging")),
+    metrics::Metadata::new("Ünï \n", metrics::Level::DEBUG, None),
+];
+const N_META: usize = 7;
+/// id of the globally installed recorder in the op stream
+const GLOBAL: usize = 1000;
 
 // ---------------------------------------------------------------------------------------------
 // worker threads: execute one closure at a time, the caller waits for the result
@@ -52,6 +71,19 @@ impl Workers {
             tx.push(s);
         }
         Workers { tx }
+    }
+    /// abandon worker `tid` (its thread-local state is suspect) and start a fresh thread in its place
+    fn replace(&mut self, tid: usize) {
+        let (s, r) = channel::<Job>();
+        std::thread::Builder::new()
+            .name(format!("c19-worker-{}r", tid))
+            .spawn(move || {
+                while let Ok(job) = r.recv() {
+                    job();
+                }
+            })
+            .unwrap();
+        self.tx[tid - 1] = s;
     }
     /// run `f` on thread `tid` (0 = the calling thread) and wait for its result
     fn on<R: Send + 'static>(&self, tid: usize, f: impl FnOnce() -> R + Send + 'static) -> R {
@@ -99,11 +131,183 @@ enum Upd {
 enum G {
     Describe { rid: usize, tid: usize, via: Via, kind: u8, name: String, unit: Option<Unit>, desc: String },
     /// register (and update through the fresh handle); `keep` = remember the handle
-    Reg { rid: usize, tid: usize, via: Via, kind: u8, key: KeyUse, upd: Upd, keep: bool },
+    Reg { rid: usize, tid: usize, via: Via, kind: u8, key: KeyUse, upd: Upd, keep: bool, meta: u8 },
     /// update through the `h`-th remembered handle (modulo the number of handles), on thread `tid` with
     /// recorder `other` (if any) installed locally
     Handle { h: usize, tid: usize, other: Option<usize>, upd_seed: u64 },
     Snapshot { rid: usize, tid: usize, map: bool },
+    /// a tree of scopes and calls executed on thread `tid` in one go
+    Tree { tid: usize, items: Vec<Item> },
+}
+
+/// one statement of a scope tree
+#[derive(Clone, Debug)]
+enum Item {
+    /// `describe_*!` (or the trait method through `with_recorder`): reaches the current recorder
+    Desc { mac: bool, kind: u8, name: String, unit: Option<Unit>, desc: String },
+    /// `counter!/gauge!/histogram!` (or the trait method through `with_recorder`) + update through the fresh handle
+    Reg { mac: bool, meta: u8, kind: u8, key: KeyUse, upd: Upd },
+    /// `with_local_recorder(&rec, || body)` (`guard` = false) or `{ let _g = set_default_local_recorder(&rec); body }`;
+    /// `panics`: 0 = the body returns, 1 = `panic_any`, 2 = `resume_unwind`, 3 = `panic!` at the end of the body;
+    /// `catch_here`: a `catch_unwind` sits directly around this scope (else the unwinding goes on through the
+    /// enclosing scopes up to the next one that catches, at the latest the root of the tree)
+    Scope { rid: usize, guard: bool, body: Vec<Item>, panics: u8, catch_here: bool },
+    /// `Snapshotter::snapshot()` of recorder `rid` (direct, whatever scope is open)
+    Snap { rid: usize },
+    /// what does `with_recorder` find right now?
+    Probe,
+}
+
+/// what happened while a tree ran, in order (turned into op lines and tally updates by the harness thread)
+enum Ev {
+    Enter(usize),
+    Exit(bool),
+    Target(usize),
+    Desc { reached: usize, kind: u8, name: String, unit: Option<Unit>, desc: String },
+    Reg { reached: usize, kind: u8, key: KeyUse, upd: Upd },
+    Snap { rid: usize, snap: Snap },
+}
+
+/// payload of the panics raised on purpose
+struct ScopePanic;
+const PANIC_MSG: &str = "c19 scope panic";
+
+fn quiet_scope_panics() {
+    static ONCE: std::sync::Once = std::sync::Once::new();
+    ONCE.call_once(|| {
+        let prev = std::panic::take_hook();
+        std::panic::set_hook(Box::new(move |info| {
+            let p = info.payload();
+            if p.is::<ScopePanic>() || p.downcast_ref::<&str>().map(|s| *s == PANIC_MSG).unwrap_or(false) {
+                return;
+            }
+            prev(info)
+        }));
+    });
+}
+
+/// address of the recorder `with_recorder` hands out on this thread right now
+fn probe() -> usize {
+    metrics::with_recorder(|r| r as *const dyn Recorder as *const () as usize)
+}
+
+struct Cx {
+    recs: Vec<Arc<DebuggingRecorder>>, // 0..nrec-1, then the decoy
+    snaps: Vec<Snapshotter>,
+    gsnap: Snapshotter,
+    evs: Vec<Ev>,
+}
+
+fn raise(kind: u8) {
+    match kind {
+        0 => {}
+        1 => std::panic::panic_any(ScopePanic),
+        2 => std::panic::resume_unwind(Box::new(ScopePanic)),
+        _ => panic!("c19 scope panic"),
+    }
+}
+
+fn run_items(cx: &mut Cx, items: &[Item]) {
+    use std::panic::{catch_unwind, resume_unwind, AssertUnwindSafe};
+    for it in items {
+        match it {
+            Item::Desc { mac, kind, name, unit, desc } => {
+                let reached = probe();
+                if *mac {
+                    match (*kind, *unit) {
+                        (0, Some(u)) => metrics::describe_counter!(name.to_string(), u, desc.to_string()),
+                        (0, None) => metrics::describe_counter!(name.to_string(), desc.to_string()),
+                        (1, Some(u)) => metrics::describe_gauge!(name.to_string(), u, desc.to_string()),
+                        (1, None) => metrics::describe_gauge!(name.to_string(), desc.to_string()),
+                        (_, Some(u)) => metrics::describe_histogram!(name.to_string(), u, desc.to_string()),
+                        (_, None) => metrics::describe_histogram!(name.to_string(), desc.to_string()),
+                    }
+                } else {
+                    let kn = KeyName::from(name.to_string());
+                    let d = SharedString::from(desc.to_string());
+                    metrics::with_recorder(|r| match kind {
+                        0 => r.describe_counter(kn, *unit, d),
+                        1 => r.describe_gauge(kn, *unit, d),
+                        _ => r.describe_histogram(kn, *unit, d),
+                    });
+                }
+                cx.evs.push(Ev::Desc { reached, kind: *kind, name: name.clone(), unit: *unit, desc: desc.clone() });
+            }
+            Item::Reg { mac, meta, kind, key, upd } => {
+                let reached = probe();
+                let h = if *mac {
+                    register_macro(*kind, key, *meta)
+                } else {
+                    let k = build_key(key);
+                    let m = &METAS[*meta as usize % N_META];
+                    metrics::with_recorder(|r| match kind {
+                        0 => H::C(r.register_counter(&k, m)),
+                        1 => H::G(r.register_gauge(&k, m)),
+                        _ => H::H(r.register_histogram(&k, m)),
+                    })
+                };
+                apply(&h, upd);
+                cx.evs.push(Ev::Reg { reached, kind: *kind, key: key.clone(), upd: upd.clone() });
+            }
+            Item::Scope { rid, guard, body, panics, catch_here } => {
+                cx.evs.push(Ev::Enter(*rid));
+                let rec = cx.recs[*rid].clone();
+                let res = catch_unwind(AssertUnwindSafe(|| {
+                    if *guard {
+                        let _g = metrics::set_default_local_recorder(&*rec);
+                        run_items(cx, body);
+                        raise(*panics);
+                    } else {
+                        metrics::with_local_recorder(&*rec, || {
+                            run_items(cx, body);
+                            raise(*panics);
+                        })
+                    }
+                }));
+                cx.evs.push(Ev::Exit(res.is_err()));
+                cx.evs.push(Ev::Target(probe()));
+                if let Err(p) = res {
+                    if !*catch_here {
+                        resume_unwind(p);
+                    }
+                }
+            }
+            Item::Snap { rid } => {
+                let s = if *rid == GLOBAL { cx.gsnap.clone() } else { cx.snaps[*rid].clone() };
+                cx.evs.push(Ev::Snap { rid: *rid, snap: s.snapshot().into_vec() });
+            }
+            Item::Probe => cx.evs.push(Ev::Target(probe())),
+        }
+    }
+}
+
+/// the macro forms: plain, `level:`, `target:`, `target: …, level: …` (the metadata is a static of the call site)
+fn register_macro(kind: u8, ku: &KeyUse, form: u8) -> H {
+    let labels: Vec<Label> = ku.labels.iter().map(|(k, v)| Label::new(k.clone(), v.clone())).collect();
+    let name = ku.name.clone();
+    match (kind, form % 4) {
+        (0, 0) => H::C(metrics::counter!(name, labels)),
+        (0, 1) => H::C(metrics::counter!(level: metrics::Level::TRACE, name, labels)),
+        (0, 2) => H::C(metrics::counter!(target: "c19::elsewhere", name, labels)),
+        (0, _) => H::C(metrics::counter!(target: "", level: metrics::Level::ERROR, name, labels)),
+        (1, 0) => H::G(metrics::gauge!(name, labels)),
+        (1, 1) => H::G(metrics::gauge!(level: metrics::Level::DEBUG, name, labels)),
+        (1, 2) => H::G(metrics::gauge!(target: "c19::elsewhere", name, labels)),
+        (1, _) => H::G(metrics::gauge!(target: "", level: metrics::Level::WARN, name, labels)),
+        (_, 0) => H::H(metrics::histogram!(name, labels)),
+        (_, 1) => H::H(metrics::histogram!(level: metrics::Level::TRACE, name, labels)),
+        (_, 2) => H::H(metrics::histogram!(target: "c19::elsewhere", name, labels)),
+        (_, _) => H::H(metrics::histogram!(target: "", level: metrics::Level::ERROR, name, labels)),
+    }
+}
+
+/// process-wide state: the workers, and the global recorder (one per process) with its tally
+struct World {
+    workers: Workers,
+    gsnap: Snapshotter,
+    gtally: Tally,
+    gptr: usize,
+    noop: usize,
 }
 
 fn leak(s: &str) -> &'static str {
@@ -249,8 +453,8 @@ fn entry_tok(e: &(CompositeKey, Option<Unit>, Option<SharedString>, DebugValue))
         DebugValue::Counter(n) => format!("c{}", n),
         DebugValue::Gauge(g) => val_tok(g.0),
         DebugValue::Histogram(vs) => {
-            let mut t: Vec<String> = vs.iter().map(|x| val_tok(x.0)).collect();
-            t.sort();
+            // in the order the snapshot shows them (sequential histories: the model's `blockOrder`)
+            let t: Vec<String> = vs.iter().map(|x| val_tok(x.0)).collect();
             list(t)
         }
     };
@@ -428,23 +632,24 @@ fn apply(h: &H, upd: &Upd) {
     }
 }
 
-fn register_via(rec: &DebuggingRecorder, via: Via, kind: u8, ku: &KeyUse) -> H {
+fn register_via(rec: &DebuggingRecorder, via: Via, kind: u8, ku: &KeyUse, meta: u8) -> H {
+    let m = &METAS[meta as usize % N_META];
     match via {
         Via::Direct => {
             let key = build_key(ku);
             match kind {
-                0 => H::C(rec.register_counter(&key, &META)),
-                1 => H::G(rec.register_gauge(&key, &META)),
-                _ => H::H(rec.register_histogram(&key, &META)),
+                0 => H::C(rec.register_counter(&key, m)),
+                1 => H::G(rec.register_gauge(&key, m)),
+                _ => H::H(rec.register_histogram(&key, m)),
             }
         }
         Via::Local => {
             let key = build_key(ku);
             metrics::with_local_recorder(rec, || {
                 metrics::with_recorder(|r| match kind {
-                    0 => H::C(r.register_counter(&key, &META)),
-                    1 => H::G(r.register_gauge(&key, &META)),
-                    _ => H::H(r.register_histogram(&key, &META)),
+                    0 => H::C(r.register_counter(&key, m)),
+                    1 => H::G(r.register_gauge(&key, m)),
+                    _ => H::H(r.register_histogram(&key, m)),
                 })
             })
         }
@@ -452,6 +657,9 @@ fn register_via(rec: &DebuggingRecorder, via: Via, kind: u8, ku: &KeyUse) -> H {
             // literal forms for two fixed keys, the expression form otherwise
             let lit1 = ku.name == "reqs" && ku.labels.len() == 1 && ku.labels[0] == ("host".to_string(), "a".to_string());
             let lit0 = ku.name == "lat" && ku.labels.is_empty();
+            if !lit1 && !lit0 && meta % 4 != 0 {
+                return register_macro(kind, ku, meta);
+            }
             let labels: Vec<Label> = ku.labels.iter().map(|(k, v)| Label::new(k.clone(), v.clone())).collect();
             match kind {
                 0 => H::C(if lit1 {
@@ -524,23 +732,46 @@ fn is_dyadic(v: f64) -> bool {
     val_tok(v).starts_with('d')
 }
 
-fn exec(out: &mut Out, workers: &Workers, nrec: usize, script: &[G]) {
-    let recs: Vec<Arc<DebuggingRecorder>> = (0..nrec).map(|_| Arc::new(DebuggingRecorder::new())).collect();
+/// name of the recorder at address `ptr` in the op stream
+fn ptr_tok(ptr: usize, recs: &[Arc<DebuggingRecorder>], w: &World) -> String {
+    for (i, r) in recs.iter().enumerate() {
+        if Arc::as_ptr(r) as *const () as usize == ptr {
+            return format!("r{}", i);
+        }
+    }
+    if ptr == w.noop {
+        "noop".to_string()
+    } else if ptr == w.gptr {
+        format!("r{}", GLOBAL)
+    } else {
+        format!("unknown@{:x}", ptr)
+    }
+}
+
+fn snap_has_hist(snap: &Snap) -> bool {
+    snap.iter().any(|e| matches!(&e.3, DebugValue::Histogram(v) if !v.is_empty()))
+}
+
+fn exec(out: &mut Out, w: &mut World, nrec: usize, script: &[G]) {
+    // recorders 0..nrec-1, then the decoy (id nrec)
+    let decoy_id = nrec;
+    let recs: Vec<Arc<DebuggingRecorder>> = (0..nrec + 1).map(|_| Arc::new(DebuggingRecorder::new())).collect();
     let snaps: Vec<Snapshotter> = recs.iter().map(|r| r.snapshotter()).collect();
-    let mut tallies: Vec<Tally> = (0..nrec).map(|_| Tally::default()).collect();
-    let decoy = DebuggingRecorder::new();
-    let decoy_snap = decoy.snapshotter();
+    let mut tallies: Vec<Tally> = (0..nrec + 1).map(|_| Tally::default()).collect();
+    let decoy = recs[decoy_id].clone();
     let mut kept: Vec<Kept> = vec![];
     let mut n_snap = 0;
     let mut n_hist_snap = 0;
-    out.op(&format!("debug new {}", nrec), "ok");
-    metrics::with_local_recorder(&decoy, || {
+    let mut suspect = false;
+    out.op(&format!("debug new {}", nrec + 1), "ok");
+    out.op(&format!("debug sc 0 enter {}", decoy_id), "ok");
+    metrics::with_local_recorder(&*decoy, || {
         for g in script {
             match g {
                 G::Describe { rid, tid, via, kind, name, unit, desc } => {
                     let rec = recs[*rid].clone();
                     let (via2, kind2, name2, unit2, desc2) = (*via, *kind, name.clone(), *unit, desc.clone());
-                    workers.on(*tid, move || describe_via(&rec, via2, kind2, &name2, unit2, &desc2));
+                    w.workers.on(*tid, move || describe_via(&rec, via2, kind2, &name2, unit2, &desc2));
                     let t = &mut tallies[*rid];
                     t.describe(*kind, name, *unit, desc);
                     out.op(
@@ -550,7 +781,7 @@ fn exec(out: &mut Out, workers: &Workers, nrec: usize, script: &[G]) {
                     out.count(&format!("op.describe.unit={}", unit.is_some()));
                     out.count(&format!("via.{:?}", via));
                 }
-                G::Reg { rid, tid, via, kind, key, upd, keep } => {
+                G::Reg { rid, tid, via, kind, key, upd, keep, meta } => {
                     let rec = recs[*rid].clone();
                     let id = canon_id(&key.name, &key.labels);
                     // arithmetic only on gauges whose current value is an exact dyadic (IEEE rounding is not modelled)
@@ -558,9 +789,9 @@ fn exec(out: &mut Out, workers: &Workers, nrec: usize, script: &[G]) {
                         Upd::GAdd(n) if !tallies[*rid].gauges.get(&id).map(|v| is_dyadic(*v)).unwrap_or(true) => Upd::GSet(dy(*n)),
                         u => u.clone(),
                     };
-                    let (via2, kind2, key2, upd2) = (*via, *kind, key.clone(), upd.clone());
-                    let h = workers.on(*tid, move || {
-                        let h = register_via(&rec, via2, kind2, &key2);
+                    let (via2, kind2, key2, upd2, meta2) = (*via, *kind, key.clone(), upd.clone(), *meta);
+                    let h = w.workers.on(*tid, move || {
+                        let h = register_via(&rec, via2, kind2, &key2, meta2);
                         apply(&h, &upd2);
                         Arc::new(h)
                     });
@@ -584,6 +815,7 @@ fn exec(out: &mut Out, workers: &Workers, nrec: usize, script: &[G]) {
                     }));
                     out.count(&format!("via.{:?}", via));
                     out.count(&format!("key.variant{}", key.variant % 8));
+                    out.count(&format!("meta.{}", meta % N_META as u8));
                 }
                 G::Handle { h, tid, other, upd_seed } => {
                     if kept.is_empty() {
@@ -599,7 +831,7 @@ fn exec(out: &mut Out, workers: &Workers, nrec: usize, script: &[G]) {
                     let handle = k.h.clone();
                     let upd2 = upd.clone();
                     let other_rec = other.map(|o| recs[o % nrec].clone());
-                    workers.on(*tid, move || match other_rec {
+                    w.workers.on(*tid, move || match other_rec {
                         Some(o) => metrics::with_local_recorder(&*o, || apply(&handle, &upd2)),
                         None => apply(&handle, &upd2),
                     });
@@ -613,7 +845,7 @@ fn exec(out: &mut Out, workers: &Workers, nrec: usize, script: &[G]) {
                 G::Snapshot { rid, tid, map } => {
                     let s = snaps[*rid].clone();
                     let as_map = *map;
-                    let snap: Snap = workers.on(*tid, move || {
+                    let snap: Snap = w.workers.on(*tid, move || {
                         if as_map {
                             // order is lost in the hash map; compared sorted
                             s.snapshot().into_hashmap().into_iter().map(|(k, (u, d, v))| (k, u, d, v)).collect()
@@ -622,7 +854,7 @@ fn exec(out: &mut Out, workers: &Workers, nrec: usize, script: &[G]) {
                         }
                     });
                     n_snap += 1;
-                    if snap.iter().any(|e| matches!(&e.3, DebugValue::Histogram(v) if !v.is_empty())) {
+                    if snap_has_hist(&snap) {
                         n_hist_snap += 1;
                     }
                     let toks: Vec<String> = snap.iter().map(entry_tok).collect();
@@ -635,38 +867,162 @@ fn exec(out: &mut Out, workers: &Workers, nrec: usize, script: &[G]) {
                         out.count("op.snapshot.vec");
                     }
                 }
+                G::Tree { tid, items } => {
+                    let mut cx = Cx { recs: recs.clone(), snaps: snaps.clone(), gsnap: w.gsnap.clone(), evs: vec![] };
+                    let items2 = items.clone();
+                    let evs = w.workers.on(*tid, move || {
+                        // an unwinding that no scope of the tree catches ends here
+                        let _ = std::panic::catch_unwind(std::panic::AssertUnwindSafe(|| run_items(&mut cx, &items2)));
+                        cx.evs.push(Ev::Target(probe()));
+                        cx.evs
+                    });
+                    out.count("op.tree");
+                    // the harness's own account of the open scopes of this thread (innermost last); outside all of
+                    // them: the decoy on the harness thread, the global recorder elsewhere
+                    let base = if *tid == 0 { decoy_id } else { GLOBAL };
+                    let mut stack: Vec<usize> = vec![];
+                    let mut unwound = false;
+                    let n_evs = evs.len();
+                    for (ei, ev) in evs.into_iter().enumerate() {
+                        let expected = *stack.last().unwrap_or(&base);
+                        let exp_tok = format!("r{}", expected);
+                        match ev {
+                            Ev::Enter(rid) => {
+                                stack.push(rid);
+                                out.op(&format!("debug sc {} enter {}", tid, rid), "ok");
+                                out.count(&format!("scope.depth={}", stack.len()));
+                            }
+                            Ev::Exit(unw) => {
+                                stack.pop();
+                                unwound |= unw;
+                                out.op(&format!("debug sc {} exit {}", tid, unw as u8), "ok");
+                                out.count(&format!("scope.exit.unwinding={}", unw));
+                            }
+                            Ev::Target(ptr) => {
+                                let got = ptr_tok(ptr, &recs, w);
+                                out.op(&format!("debug sc {} target", tid), &got);
+                                if got != exp_tok {
+                                    suspect = true;
+                                    out.oracle_fail(
+                                        "the thread's current recorder is not the one of its innermost open scope",
+                                        &format!(
+                                            "thread {}: with_recorder finds {} expected {} (open scopes {:?}, a scope was left by unwinding before: {})",
+                                            tid, got, exp_tok, stack, unwound
+                                        ),
+                                    );
+                                    if ei + 1 == n_evs && *tid != 0 {
+                                        // the worker's thread-local is stale: never let it dangle, never reuse the thread
+                                        std::mem::forget(recs.clone());
+                                        w.workers.replace(*tid);
+                                    }
+                                }
+                            }
+                            Ev::Desc { reached, kind, name, unit, desc } => {
+                                let got = ptr_tok(reached, &recs, w);
+                                out.op(
+                                    &format!("debug sc {} cur describe {} {} {} {}", tid, kind_tok(kind), hexs(&name), unit_tok(unit), hexs(&desc)),
+                                    &got,
+                                );
+                                if got != exp_tok {
+                                    suspect = true;
+                                    out.oracle_fail(
+                                        "a describe call made inside a local-recorder scope reached another recorder",
+                                        &format!("thread {}: reached {} expected {} (open scopes {:?}, unwound before: {})", tid, got, exp_tok, stack, unwound),
+                                    );
+                                }
+                                let t = if expected == GLOBAL { &mut w.gtally } else { &mut tallies[expected] };
+                                t.describe(kind, &name, unit, &desc);
+                                out.count("tree.describe");
+                            }
+                            Ev::Reg { reached, kind, key, upd } => {
+                                let got = ptr_tok(reached, &recs, w);
+                                let lines = upd_lines(0, 0, kind, &key, &upd);
+                                for (li, l) in lines.iter().enumerate() {
+                                    // "debug 0 0 <op…>" → "debug sc <tid> cur <op…>"
+                                    let rest = l.splitn(4, ' ').nth(3).unwrap();
+                                    let _ = li;
+                                    out.op(&format!("debug sc {} cur {}", tid, rest), &got);
+                                }
+                                if got != exp_tok {
+                                    suspect = true;
+                                    out.oracle_fail(
+                                        "a metric registered inside a local-recorder scope reached another recorder",
+                                        &format!("thread {}: reached {} expected {} (open scopes {:?}, unwound before: {})", tid, got, exp_tok, stack, unwound),
+                                    );
+                                }
+                                let id = canon_id(&key.name, &key.labels);
+                                let t = if expected == GLOBAL { &mut w.gtally } else { &mut tallies[expected] };
+                                t.register(kind, &id);
+                                t.update(&id, &upd);
+                                out.count(&format!("tree.reg.to.{}", if expected == GLOBAL { "global" } else if expected == decoy_id { "decoy" } else { "local" }));
+                            }
+                            Ev::Snap { rid, snap } => {
+                                n_snap += 1;
+                                if snap_has_hist(&snap) {
+                                    n_hist_snap += 1;
+                                }
+                                let toks: Vec<String> = snap.iter().map(entry_tok).collect();
+                                let t = if rid == GLOBAL { &mut w.gtally } else { &mut tallies[rid] };
+                                check_snapshot(out, t, rid, &snap, true);
+                                out.op(&format!("debug {} {} snapshot", rid, tid), &entries_tok(toks, false));
+                                out.count("tree.snapshot");
+                            }
+                        }
+                    }
+                }
             }
         }
-        // final snapshots: everything recorded must have been delivered exactly once
-        for rid in 0..nrec {
+        // final snapshots: everything recorded must have been delivered exactly once; the decoy (last) shows only
+        // what the harness thread called outside any other scope
+        for rid in 0..nrec + 1 {
             let snap: Snap = snaps[rid].snapshot().into_vec();
             let toks: Vec<String> = snap.iter().map(entry_tok).collect();
             check_snapshot(out, &mut tallies[rid], rid, &snap, true);
             out.op(&format!("debug {} 0 snapshot", rid), &entries_tok(toks, false));
-            let t = &tallies[rid];
-            for (id, rec) in &t.recorded {
-                let mut a = rec.clone();
-                a.sort();
-                let mut b = t.delivered.get(id).cloned().unwrap_or_default();
-                b.sort();
-                if a != b {
-                    out.oracle_fail(
-                        "histogram values recorded and values delivered over all snapshots differ (lost or repeated)",
-                        &format!("recorder {} {} recorded {} delivered {}", rid, id, a.len(), b.len()),
-                    );
-                }
-            }
+            check_delivered(out, &tallies[rid], rid);
+        }
+        // the global recorder: only what was called outside every local scope on the worker threads
+        {
+            let snap: Snap = w.gsnap.snapshot().into_vec();
+            let toks: Vec<String> = snap.iter().map(entry_tok).collect();
+            check_snapshot(out, &mut w.gtally, GLOBAL, &snap, true);
+            out.op(&format!("debug {} 0 snapshot", GLOBAL), &entries_tok(toks, false));
+            check_delivered(out, &w.gtally, GLOBAL);
+            // the global recorder outlives the case: start the next one with empty accounts
+            w.gtally.recorded.values_mut().for_each(|v| v.clear());
+            w.gtally.delivered.values_mut().for_each(|v| v.clear());
         }
     });
-    let d = decoy_snap.snapshot().into_vec();
-    if !d.is_empty() {
+    out.op("debug sc 0 exit 0", "ok");
+    let after = ptr_tok(probe(), &recs, w);
+    out.op("debug sc 0 target", &after);
+    if after != format!("r{}", GLOBAL) {
         out.oracle_fail(
-            "a recorder installed locally on another thread received metrics meant for a different recorder",
-            &format!("decoy holds {} entries", d.len()),
+            "after the decoy's scope the harness thread's recorder is not the global one",
+            &format!("with_recorder finds {}", after),
         );
+    }
+    if suspect {
+        // a thread-local may still point at one of these recorders
+        std::mem::forget(recs.clone());
     }
     if n_snap >= 2 && n_hist_snap >= 1 {
         out.nontrivial();
+    }
+}
+
+fn check_delivered(out: &mut Out, t: &Tally, rid: usize) {
+    for (id, rec) in &t.recorded {
+        let mut a = rec.clone();
+        a.sort();
+        let mut b = t.delivered.get(id).cloned().unwrap_or_default();
+        b.sort();
+        if a != b {
+            out.oracle_fail(
+                "histogram values recorded and values delivered over all snapshots differ (lost or repeated)",
+                &format!("recorder {} {} recorded {} delivered {}", rid, id, a.len(), b.len()),
+            );
+        }
     }
 }
 
@@ -719,6 +1075,64 @@ fn gen_upd(r: &mut Rng, kind: u8, gauge_arith_ok: bool, allow_none: bool) -> Upd
     }
 }
 
+/// keys used for calls that reach the global recorder (it lives as long as the process: keep its key set small)
+const GLOBAL_NAMES: [&str; 2] = ["g.reqs", "g.lat"];
+
+/// statements of a scope (or of the root of a tree: `depth` 0); `to_global`: calls made here reach the global
+/// recorder (root of a tree on a worker thread)
+fn gen_items(r: &mut Rng, nrec: usize, names: &[String], pool: &[(String, Vec<(String, String)>)], depth: usize, to_global: bool) -> Vec<Item> {
+    let descs = ["in scope", "", "x\\y\n", "second"];
+    let n = if depth == 0 { r.range(2, 6) } else { r.range(0, 4) };
+    let mut items = vec![];
+    for _ in 0..n {
+        match r.weighted(&[6, 2, if depth < 3 { 5 } else { 0 }, 2, 1]) {
+            0 => {
+                let kind = r.below(3) as u8;
+                let (name, mut labels) = if to_global {
+                    let l = match r.below(3) {
+                        0 => vec![],
+                        1 => vec![("host".to_string(), "a".to_string())],
+                        _ => vec![("zone".to_string(), "".to_string()), ("host".to_string(), "b".to_string())],
+                    };
+                    (r.pick_str(&GLOBAL_NAMES).to_string(), l)
+                } else {
+                    pool[r.below(pool.len())].clone()
+                };
+                for i in (1..labels.len()).rev() {
+                    labels.swap(i, r.below(i + 1));
+                }
+                let key = KeyUse { name, labels, variant: r.below(8) as u8 };
+                // no gauge arithmetic in trees (the receiving recorder's gauge may hold a non-dyadic value)
+                let upd = match gen_upd(r, kind, false, true) {
+                    Upd::HRec(v) if to_global && v.len() > 20 => Upd::HRec(v[..20].to_vec()),
+                    u => u,
+                };
+                items.push(Item::Reg { mac: r.chance(2, 3), meta: r.below(N_META) as u8, kind, key, upd });
+            }
+            1 => {
+                let name = if to_global { r.pick_str(&GLOBAL_NAMES).to_string() } else { names[r.below(names.len())].clone() };
+                let unit = if r.chance(1, 2) { Some(*r.pick(&UNITS)) } else { None };
+                items.push(Item::Desc { mac: r.chance(2, 3), kind: r.below(3) as u8, name, unit, desc: r.pick_str(&descs).to_string() });
+            }
+            2 => {
+                let body = gen_items(r, nrec, names, pool, depth + 1, false);
+                // also the decoy (id nrec) now and then: the same recorder entered again below itself
+                let rid = if r.chance(1, 10) { nrec } else { r.below(nrec) };
+                items.push(Item::Scope {
+                    rid,
+                    guard: r.chance(1, 3),
+                    body,
+                    panics: r.weighted(&[5, 2, 1, 1]) as u8,
+                    catch_here: r.chance(2, 3),
+                });
+            }
+            3 => items.push(Item::Snap { rid: if r.chance(1, 5) { GLOBAL } else { r.below(nrec + 1) } }),
+            _ => items.push(Item::Probe),
+        }
+    }
+    items
+}
+
 fn gen_script(r: &mut Rng, out: &mut Out) -> (usize, usize, Vec<G>) {
     let nrec = r.range(1, 3);
     let nthreads = r.range(1, 3);
@@ -752,7 +1166,11 @@ fn gen_script(r: &mut Rng, out: &mut Out) -> (usize, usize, Vec<G>) {
     for _ in 0..nops {
         let rid = r.below(nrec);
         let tid = r.below(nthreads);
-        match r.weighted(&[5, 14, 3, 4]) {
+        match r.weighted(&[5, 14, 3, 4, 3]) {
+            4 => {
+                let items = gen_items(r, nrec, &names, &pool, 0, tid != 0);
+                script.push(G::Tree { tid, items });
+            }
             0 => {
                 let kind = r.below(3) as u8;
                 // sometimes a name that is never registered (described only)
@@ -770,7 +1188,8 @@ fn gen_script(r: &mut Rng, out: &mut Out) -> (usize, usize, Vec<G>) {
                 }
                 let key = KeyUse { name, labels, variant: r.below(8) as u8 };
                 let upd = gen_upd(r, kind, true, true);
-                script.push(G::Reg { rid, tid, via: pick_via(r), kind, key, upd, keep: r.chance(1, 3) });
+                let meta = if r.chance(1, 2) { 0 } else { r.below(N_META) as u8 };
+                script.push(G::Reg { rid, tid, via: pick_via(r), kind, key, upd, keep: r.chance(1, 3), meta });
             }
             2 => {
                 let other = if r.chance(2, 3) { Some(r.below(nrec)) } else { None };
@@ -797,8 +1216,29 @@ fn corpus() -> Vec<(usize, Vec<G>)> {
         unit,
         desc: desc.to_string(),
     };
-    let reg = |rid, tid, via, kind, key: KeyUse, upd| G::Reg { rid, tid, via, kind, key, upd, keep: true };
     let snap = |rid| G::Snapshot { rid, tid: 0, map: false };
+    let reg = |rid, tid, via, kind, key: KeyUse, upd| G::Reg { rid, tid, via, kind, key, upd, keep: true, meta: 0 };
+    let ireg = |kind, name: &str, upd| Item::Reg { mac: true, meta: 0, kind, key: ku(name, &[], 0), upd };
+    let scope = |rid, guard, body, panics, catch_here| Item::Scope { rid, guard, body, panics, catch_here };
+    // many metrics, many descriptions, one long histogram: nothing depends on the sizes
+    let mut big = vec![];
+    for i in 0..90usize {
+        let name = format!("big{}", i % 45);
+        let labels = [("host", if i < 45 { "a" } else { "b" }), ("code", "200")];
+        let kind = (i % 3) as u8;
+        big.push(d(0, kind, &name, if i % 2 == 0 { Some(Unit::Count) } else { None }, &format!("help {}", i)));
+        let upd = match kind {
+            0 => Upd::CInc(i as u64),
+            1 => Upd::GSet(dy(i as i64)),
+            _ => Upd::HRec(vec![dy(i as i64)]),
+        };
+        big.push(G::Reg { rid: 0, tid: i % 3, via: Via::Direct, kind, key: ku(&name, &labels, (i % 8) as u8), upd, keep: false, meta: (i % 7) as u8 });
+    }
+    big.push(reg(0, 0, Via::Direct, 2, ku("long", &[], 0), Upd::HRec((0..1500).map(|i| dy(i % 97)).collect())));
+    big.push(snap(0));
+    big.push(reg(0, 0, Via::Direct, 2, ku("long", &[], 0), Upd::HRec((0..700).map(|i| dy(i)).collect())));
+    big.push(G::Snapshot { rid: 0, tid: 1, map: true });
+    big.push(snap(0));
     vec![
         // description before registration; a later description without unit keeps the earlier unit
         (1, vec![
@@ -842,6 +1282,33 @@ fn corpus() -> Vec<(usize, Vec<G>)> {
             reg(0, 0, Via::Local, 2, ku("lat", &[], 4), Upd::HRec(vec![dy(64)])),
             snap(0),
         ]),
+        (1, big),
+        // a scope left by unwinding (panic caught on the same thread) gives the enclosing scope's recorder back:
+        // what is registered afterwards belongs to the enclosing recorder / the decoy / the global recorder
+        (2, vec![
+            G::Tree { tid: 0, items: vec![
+                scope(0, false, vec![
+                    ireg(0, "outer.before", Upd::CInc(1)),
+                    scope(1, false, vec![ireg(0, "inner", Upd::CInc(2))], 1, true),
+                    ireg(0, "outer.after", Upd::CInc(3)),
+                    scope(1, true, vec![ireg(2, "inner", Upd::HRec(vec![1.0]))], 3, true),
+                    ireg(2, "outer.after", Upd::HRec(vec![2.0])),
+                ], 0, true),
+                ireg(1, "decoy.after", Upd::GSet(1.0)),
+                Item::Snap { rid: 0 },
+                Item::Snap { rid: 1 },
+            ] },
+            G::Tree { tid: 1, items: vec![
+                scope(0, false, vec![scope(1, false, vec![scope(0, true, vec![ireg(0, "deep", Upd::CInc(1))], 2, false)], 0, false)], 0, true),
+                ireg(0, "g.reqs", Upd::CInc(1)),
+                Item::Probe,
+                scope(1, false, vec![ireg(1, "inner", Upd::GSet(2.0))], 1, true),
+                ireg(0, "g.reqs", Upd::CInc(1)),
+                Item::Snap { rid: GLOBAL },
+            ] },
+            snap(0),
+            snap(1),
+        ]),
         // two recorders, the same key, different threads; handles used under the other recorder
         (2, vec![
             reg(0, 1, Via::Local, 0, ku("reqs", &[("host", "a")], 0), Upd::CInc(5)),
@@ -856,18 +1323,81 @@ fn corpus() -> Vec<(usize, Vec<G>)> {
     ]
 }
 
+/// first case of every run: `DebuggingRecorder::install()`.  A snapshotter obtained BEFORE the installation must
+/// show what the macros record afterwards on threads without a local recorder; a second installation fails.
+fn install_global(out: &mut Out, workers: Workers) -> World {
+    out.case("global install");
+    out.op("debug new 1", "ok");
+    let noop = workers.on(1, probe);
+    let mut w = World { workers, gsnap: DebuggingRecorder::new().snapshotter(), gtally: Tally::default(), gptr: 0, noop };
+    let none: Vec<Arc<DebuggingRecorder>> = vec![];
+    out.op("debug sc 1 target", &ptr_tok(noop, &none, &w));
+    // before the installation the macros reach the no-op recorder: nothing is registered anywhere
+    let reached = w.workers.on(1, || {
+        let p = probe();
+        metrics::counter!("g.reqs").increment(5);
+        p
+    });
+    out.op(&format!("debug sc 1 cur cinc {} . 5", hexs("g.reqs")), &ptr_tok(reached, &none, &w));
+    let g = DebuggingRecorder::new();
+    w.gsnap = g.snapshotter();
+    let first = g.install().is_ok();
+    out.op(&format!("debug sc 0 install {}", GLOBAL), if first { "ok" } else { "err" });
+    let gptr = w.workers.on(2, probe);
+    if gptr != noop {
+        w.gptr = gptr;
+    }
+    out.op("debug sc 2 target", &ptr_tok(gptr, &none, &w));
+    if !first || gptr == noop {
+        out.oracle_fail("DebuggingRecorder::install() did not make the recorder the global one", &format!("install ok: {}", first));
+    }
+    let second = DebuggingRecorder::default().install().is_ok();
+    out.op(&format!("debug sc 0 install {}", GLOBAL), if second { "ok" } else { "err" });
+    if second {
+        out.oracle_fail("a second install() succeeded", "");
+    }
+    // threads without a local recorder (worker, harness thread) reach the installed recorder through the macros
+    for (tid, n) in [(1usize, 2u64), (0, 3), (2, 4)] {
+        let reached = w.workers.on(tid, move || {
+            let p = probe();
+            metrics::counter!("g.reqs").increment(n);
+            metrics::histogram!("g.lat", "host" => "a").record(n as f64);
+            p
+        });
+        let tok = ptr_tok(reached, &none, &w);
+        out.op(&format!("debug sc {} cur cinc {} . {}", tid, hexs("g.reqs"), n), &tok);
+        out.op(&format!("debug sc {} cur hrec {} {}:{} {}", tid, hexs("g.lat"), hexs("host"), hexs("a"), val_tok(n as f64)), &tok);
+        let id = canon_id("g.reqs", &[]);
+        w.gtally.register(0, &id);
+        w.gtally.update(&id, &Upd::CInc(n));
+        let id = canon_id("g.lat", &[("host".to_string(), "a".to_string())]);
+        w.gtally.register(2, &id);
+        w.gtally.update(&id, &Upd::HRec(vec![n as f64]));
+    }
+    let snap: Snap = w.gsnap.snapshot().into_vec();
+    let toks: Vec<String> = snap.iter().map(entry_tok).collect();
+    check_snapshot(out, &mut w.gtally, GLOBAL, &snap, true);
+    out.op(&format!("debug {} 0 snapshot", GLOBAL), &entries_tok(toks, false));
+    // a recorder that was never installed and never called shows nothing
+    if !DebuggingRecorder::default().snapshotter().snapshot().into_vec().is_empty() {
+        out.oracle_fail("a fresh recorder shows metrics", "");
+    }
+    w
+}
+
 pub fn run(cfg: &Cfg, out: &mut Out) {
-    let workers = Workers::new(2);
+    quiet_scope_panics();
+    let mut w = install_global(out, Workers::new(2));
     for (i, (nrec, script)) in corpus().into_iter().enumerate() {
         out.case(&format!("corpus {}", i));
-        exec(out, &workers, nrec, &script);
+        exec(out, &mut w, nrec, &script);
     }
     let root = Rng::new(cfg.seed);
     for i in 0..cfg.cases {
         let mut r = root.fork(i as u64);
         out.case(&format!("seed={} i={}", cfg.seed, i));
         let (nrec, _nthreads, script) = gen_script(&mut r, out);
-        exec(out, &workers, nrec, &script);
+        exec(out, &mut w, nrec, &script);
     }
 }
 
@@ -936,6 +1466,42 @@ pub fn run_concurrent(cfg: &Cfg, out: &mut Out) {
                 }
             }));
         }
+        // sometimes a second Snapshotter clone snapshots concurrently (each value must still be in exactly one
+        // snapshot), and sometimes a thread registers NEW metrics while snapshots run (a metric whose registration
+        // races a snapshot is listed from some snapshot on, with every value exactly once)
+        let late = Arc::new(Mutex::new(Vec::<u64>::new())); // counter values of "late" seen by the snapshots
+        let mut has_late = false;
+        if !targeted && r.chance(1, 3) {
+            let snapper = snapper.clone();
+            let snaps = snaps.clone();
+            let late = late.clone();
+            bodies.insert(0, Box::new(move || {
+                let s = snapper.snapshot().into_vec();
+                let mut vals = vec![];
+                for (ck, _, _, v) in s {
+                    match v {
+                        DebugValue::Histogram(xs) => vals.extend(xs.into_iter().map(|x| x.into_inner().to_bits())),
+                        DebugValue::Counter(c) if ck.key().name() == "late" => late.lock().unwrap().push(c),
+                        _ => {}
+                    }
+                }
+                snaps.lock().unwrap().push(vals);
+            }));
+            out.count("concurrent.second_snapshotter");
+        }
+        if !targeted && r.chance(1, 3) {
+            has_late = true;
+            let rec2 = rec.clone();
+            let v = next_val as f64;
+            recorded.push(v.to_bits());
+            bodies.insert(0, Box::new(move || {
+                let k = Key::from_parts("late", vec![Label::new("host", "a")]);
+                rec2.register_counter(&k, &META).increment(1);
+                rec2.describe_counter(KeyName::from("late"), Some(Unit::Count), SharedString::from("registered late"));
+                rec2.register_histogram(&Key::from_name("lat2"), &META).record(v);
+            }));
+            out.count("concurrent.late_registration");
+        }
         let nt = bodies.len();
         let mut sch = vec![];
         if targeted {
@@ -962,12 +1528,28 @@ pub fn run_concurrent(cfg: &Cfg, out: &mut Out) {
         {
             let s = snapper.snapshot().into_vec();
             let mut vals = vec![];
-            for (_, _, _, v) in s {
-                if let DebugValue::Histogram(xs) = v {
-                    vals.extend(xs.into_iter().map(|x| x.into_inner().to_bits()));
+            let mut late_final = None;
+            let names: Vec<String> = s.iter().map(|(ck, _, _, _)| format!("{}:{}", kind_tok(kind_of(ck.kind())), ck.key().name())).collect();
+            for (ck, unit, desc, v) in s {
+                match v {
+                    DebugValue::Histogram(xs) => vals.extend(xs.into_iter().map(|x| x.into_inner().to_bits())),
+                    DebugValue::Counter(c) if ck.key().name() == "late" => late_final = Some((c, unit, desc.map(|d| d.to_string()))),
+                    _ => {}
                 }
             }
             snaps.lock().unwrap().push(vals);
+            if has_late {
+                let want = vec!["h:lat".to_string(), "c:late".to_string(), "h:lat2".to_string()];
+                if names != want || late_final != Some((1, Some(Unit::Count), Some("registered late".to_string()))) {
+                    out.oracle_fail(
+                        "metrics registered while snapshots were running are not listed (in registration order, with value and description) at quiescence [no-known-signature]",
+                        &format!("listed {:?} late {:?}; trace {:?}", names, late_final, run.trace),
+                    );
+                }
+                if late.lock().unwrap().iter().any(|c| *c > 1) {
+                    out.oracle_fail("a racing snapshot shows a counter value it never had [no-known-signature]", &format!("{:?}", late.lock().unwrap()));
+                }
+            }
         }
         let snaps = snaps.lock().unwrap().clone();
         let sig = crate::c05::signatures_of_trace(&run.trace);
